@@ -72,6 +72,24 @@ def vacated_slot_repair(ev, ops, slot, guard_needed):
   return False, len(got), 'the node moved into the vacated slot is never sifted up (it comes from another subtree and may be smaller than its new parent)'
 
 
+def hooks_before_repair(ev):
+  """Calls to subclass hooks (self._On*) that run after a load write but before the heap repair that follows it:
+  the aperture's hooks add/remove members, i.e. sift over a heap whose changed node is still misplaced."""
+  out = []
+  lw = load_writes(ev)
+  hc = heap_calls(ev)
+  for i, tgt, op, val in lw:
+    if op == '=':
+      continue
+    rep = [j for j, k, a in hc if j > i]
+    if not rep:
+      continue
+    for e in ev[i + 1:rep[0]]:
+      if e.kind == 'call' and U(e.node.func).startswith('self._On'):
+        out.append(U(e.node))
+  return out
+
+
 def load_writes(ev):
   out = []
   for i, e in enumerate(ev):
@@ -169,6 +187,10 @@ def r2(ctx):
       okq = any(e.kind == 'stmt' and isinstance(e.node, ast.Assign) and U(e.node.targets[0]) == 'self._downq' and U(e.node.value) == cand for e in ev) and \
         any(e.kind == 'stmt' and isinstance(e.node, ast.Assign) and U(e.node.targets[0]) == cand + '.downq' and U(e.node.value) == 'self._downq' for e in ev)
       cond_ok = ('%s.channel.state==ChannelState.Open' % cand, False) in fs and ('%s.load>=0' % cand, False) in fs
+      hb = hooks_before_repair(ev)
+      ctx.ob('C03.R3', g, 'no subclass hook runs between a load change and its heap repair', not hb,
+             'hook(s) %s run while the penalised root is still in slot 1: the aperture hook adds a member and sifts it over the misplaced node, the later FixDown(1) starts from the new root and repairs nothing' % hb,
+             'the heap root is the least-loaded open member only while heap order holds; every structural operation assumes an ordered heap')
       nd = [e for e in ev if e.kind == 'call' and U(e.node.func) == 'self._OnNodeDown']
       ctx.ob('C03.R2', g, 'a closed, not-yet-down root is penalised, sifted down and queued for resurrection, then selection repeats',
              okw and okh and okq and cond_ok and ex[0] in ('fall', 'continue') and len(nd) == 1,
@@ -243,6 +265,8 @@ def r3(ctx):
     le = [j for j, e in enumerate(ev) if e.kind == 'with_enter' and '_heap_lock' in U(e.node.context_expr)]
     lx = [j for j, e in enumerate(ev) if e.kind == 'with_exit' and '_heap_lock' in U(e.node.context_expr)]
     ok = ok and bool(le) and bool(lx) and le[0] < i < fd[0][0] < lx[0]
+    hb = hooks_before_repair(ev)
+    ctx.ob('C03.R3', f, 'no subclass hook runs between a load change and its heap repair', not hb, 'hook(s) %s run before the repair of the dispatch increment' % hb, why)
     ctx.ob('C03.R3', f, 'dispatch: load += 1 on the selected node, then FixDown(heap, node.index, size) inside the lock', ok,
            'dispatch path: load writes %s, heap ops %s' % (lw, hc), why)
   ctx.floor('C03.R3', 'dispatch paths', n, 1)
@@ -254,6 +278,8 @@ def r3(ctx):
     lw = [w for w in load_writes(ev) if w[2] != '=']
     hc = heap_calls(ev)
     ops = [(k, a) for _, k, a in hc]
+    hb = hooks_before_repair(ev)
+    ctx.ob('C03.R3', p, 'no subclass hook runs between a load change and its heap repair', not hb, 'hook(s) %s run before the repair of the completion decrement' % hb, why)
     okdec = len(lw) == 1 and lw[0][1:] == (node, '-=', '1') and (not hc or lw[0][0] < hc[0][0])
     ctx.ob('C03.R3', p, 'completion decrements the load once before any repair', okdec, 'completion path: load writes %s' % lw, why)
     removed = ('%s.index<0' % node, True) in fs
